@@ -58,6 +58,7 @@ func docCase(c *Ctx, x any, label string, w *vmodel.DocWriter) {
 		return
 	}
 	gotN := vmodel.Canon(got, vmodel.JSON)
+	keepDecoded(c, "doc", vmodel.JSON, got, label)
 	for _, d := range vmodel.Diff(want, gotN) {
 		c.Fail("doc|"+d.Sig(), fmt.Sprintf("document decode: %s %s (document says %s, decoded %s)", d.Path, d.Kind, d.WantShape, d.GotShape),
 			map[string]any{"case": label, "path": d.Path, "want": d.Want, "got": d.Got, "document": clipB(doc), "shape_choices": w.Choices})
